@@ -43,17 +43,19 @@ pub struct Ledger {
     pub violations: Vec<LedgerViolation>,
     pub slow_clone: u8,
     pub slow_view: u8,
+    /// the destructor lingers (yields to the scheduler) before it takes effect
+    pub slow_drop: u8,
     pub clones: u64,
     pub views: u64,
 }
 
 thread_local! {
     pub static LEDGER: RefCell<Ledger> = RefCell::new(Ledger {
-        exec: 0, entries: Vec::new(), violations: Vec::new(), slow_clone: 0, slow_view: 0, clones: 0, views: 0,
+        exec: 0, entries: Vec::new(), violations: Vec::new(), slow_clone: 0, slow_view: 0, slow_drop: 0, clones: 0, views: 0,
     });
 }
 
-pub fn reset(exec: u32, slow_clone: u8, slow_view: u8) {
+pub fn reset(exec: u32, slow_clone: u8, slow_view: u8, slow_drop: u8) {
     LEDGER.with(|l| {
         let mut l = l.borrow_mut();
         l.exec = exec;
@@ -61,6 +63,7 @@ pub fn reset(exec: u32, slow_clone: u8, slow_view: u8) {
         l.violations.clear();
         l.slow_clone = slow_clone;
         l.slow_view = slow_view;
+        l.slow_drop = slow_drop;
         l.clones = 0;
         l.views = 0;
     })
@@ -225,6 +228,14 @@ impl Drop for P {
         let _g = rt::galloc::NoAttr::new();
         if rt::with(|r| r.trace.get()) {
             eprintln!("  -- t{} drop {} serial {}", rt::with(|r| r.cur.get()), fmt_id(self.id), self.serial);
+        }
+        // a destructor of arbitrary duration: the value is looked at only after the pause,
+        // so a slot that is overwritten while its old value is still being destroyed shows up
+        // as a drop of the wrong value
+        let n = LEDGER.try_with(|l| l.try_borrow().map(|l| l.slow_drop).unwrap_or(0)).unwrap_or(0);
+        for _ in 0..n {
+            rt::with(|r| r.fault(rt::Fault::SlowDrop));
+            rt::shim::user_point();
         }
         let (id, inv, serial, exec) = (self.id, self.inv, self.serial, self.exec);
         let r = LEDGER.try_with(|l| {
